@@ -262,7 +262,7 @@ h!(q_real_coowner_offset, gates_with_real_coowner::<OffsetArc<Dt>>());
 h!(q_real_coowner_union2, gates_with_real_coowner::<U2<Dt>>());
 h!(r0_real_coowner_union1, gates_with_real_coowner::<U1<Dt>>());
 h!(r1_real_coowner_raw, gates_with_real_coowner::<Raw<Dt>>());
-h!(r2_real_coowner_swap, gates_with_real_coowner::<Swp<Dt>>());
+h!(q_real_coowner_swap, gates_with_real_coowner::<Swp<Dt>>());
 h!(q_real_coowner_thin, {
     let v: u8 = kani::any();
     let mut a = Arc::from_header_and_iter(HeaderWithLength::new(Dt::new(0, v), 1), (0..1).map(|_| Dt::new(1, v)));
